@@ -367,3 +367,237 @@ package wire
 //@   props C14 C04
 //@   requires [captured] typed != nil && typed.Codec != nil
 //@   modifies nothing
+
+// ---- statement and portal caches (C07) ---------------------------------------------------
+
+//@ func DefaultStatementCacheFn
+//@   props C07 C15 C04
+//@   ensures typeis(result, "*wire.DefaultStatementCache") && fresh(val(result)) && DSC(result).statements == nil
+//@   modifies nothing
+
+//@ func DefaultPortalCacheFn
+//@   props C07 C15 C04
+//@   ensures typeis(result, "*wire.DefaultPortalCache") && fresh(val(result)) && DPC(result).portals == nil
+//@   modifies nothing
+
+//@ func (*DefaultStatementCache).Set
+//@   props C07 C04
+//@   refines iface wire.StatementCache.Set
+//@   requires cache != nil && stmt != nil
+//@   ensures [stored] result == nil && mapdom(cache.statements, name) && fresh(cache.statements[name]) && cache.statements[name].fn == stmt.fn && cache.statements[name].parameters == stmt.parameters && cache.statements[name].columns == stmt.columns
+//@   ensures [whole-view] forall k :: k != name ==> ((mapdom(cache.statements, k) <==> old(mapdom(cache.statements, k))) && (mapdom(cache.statements, k) ==> cache.statements[k] == old(cache.statements[k])))
+//@   modifies cache.statements, mapof(cache.statements)
+
+//@ func (*DefaultStatementCache).Get
+//@   props C07 C04
+//@   refines iface wire.StatementCache.Get
+//@   requires cache != nil
+//@   ensures [lookup] result.1 == nil && result.0 == (mapdom(cache.statements, name) ? cache.statements[name] : nil)
+//@   modifies nothing
+
+//@ func (*DefaultPortalCache).Bind
+//@   props C07 C08 C04
+//@   refines iface wire.PortalCache.Bind
+//@   requires cache != nil
+//@   ensures [stored] result == nil && mapdom(cache.portals, name) && fresh(cache.portals[name]) && cache.portals[name].statement == stmt && cache.portals[name].parameters == parameters && cache.portals[name].formats == formats
+//@   ensures [whole-view] forall k :: k != name ==> ((mapdom(cache.portals, k) <==> old(mapdom(cache.portals, k))) && (mapdom(cache.portals, k) ==> cache.portals[k] == old(cache.portals[k])))
+//@   modifies cache.portals, mapof(cache.portals)
+
+//@ func (*DefaultPortalCache).Get
+//@   props C07 C04
+//@   refines iface wire.PortalCache.Get
+//@   requires cache != nil
+//@   requires [portals-wellformed] forall k :: mapdom(cache.portals, k) ==> (cache.portals[k] != nil && cache.portals[k].statement != nil)
+//@   ensures [lookup] result.1 == nil && result.0 == (mapdom(cache.portals, name) ? cache.portals[name] : nil)
+//@   modifies nothing
+
+//@ func (*DefaultPortalCache).Execute
+//@   props C07 C08 C06 C05 C04
+//@   refines iface wire.PortalCache.Execute
+//@   requires cache != nil && ctx != nil && WriterReady(writer) && reader != nil
+//@   requires [portals-wellformed] forall k :: mapdom(cache.portals, k) ==> (cache.portals[k] != nil && cache.portals[k].statement != nil && cache.portals[k].statement.fn != nil)
+//@   callsite callback:wire.PreparedStatementFn [delivers] {C08 C07} $self == cache.portals[name].statement.fn && $parameters == cache.portals[name].parameters && cast($writer, "*wire.dataWriter").formats == cache.portals[name].formats && cast($writer, "*wire.dataWriter").columns == cache.portals[name].statement.columns && cast($writer, "*wire.dataWriter").client == writer && cast($writer, "*wire.dataWriter").reader == reader && $ctx == ctx
+//@   modifies StmtEffects(writer, reader, ctx), #nExec
+
+// ---- parameters ------------------------------------------------------------------------
+
+//@ func NewParameter
+//@   props C08 C04
+//@   ensures result.types == types && result.format == format && result.value == value
+//@   modifies nothing
+
+//@ func (Parameter).Format
+//@   props C08 C04
+//@   ensures result == p.format
+//@   modifies nothing
+
+//@ func (Parameter).Value
+//@   props C08 C04
+//@   ensures result == p.value
+//@   modifies nothing
+
+//@ func (Parameter).Scan
+//@   props C08 C04
+//@   requires p.types != nil
+//@   callsite iface:pgtype.Codec.DecodeValue [own-decoder] {C08} $m == p.types && $oid == oid && $format == p.format && $src == p.value
+//@   modifies nothing
+
+// ---- session middleware (C19) --------------------------------------------------------------
+// The composed handler calls parent first; on error it returns that error without
+// calling fn; otherwise it calls fn with the context parent returned and returns fn's results.
+
+//@ func SessionMiddleware$1$1$1
+//@   props C19 C04
+//@   requires [captured] parent != nil && fn != nil
+//@   callsite callback:wire.SessionHandler [parent-first] (#nSession == old(#nSession) ==> ($self == parent && $ctx == ctx0)) && (#nSession != old(#nSession) ==> (#nSession == old(#nSession) + 1 && $self == fn && val($ctx) == #sessCtx && #sessErrTag == 0))
+//@   ensures [ran] #nSession == old(#nSession) + 1 || #nSession == old(#nSession) + 2
+//@   ensures [parent-error-stops] #nSession == old(#nSession) + 1 ==> (result.1 != nil && #sessFn == parent)
+//@   ensures [returns-fn] #nSession == old(#nSession) + 2 ==> (#sessFn == fn && val(result.0) == #sessCtx && tag(result.1) == #sessErrTag && val(result.1) == #sessErrVal)
+//@   ensures [out-silent] OutSame()
+//@   modifies #nSession, #sessCtx, #sessErrTag, #sessErrVal, #sessArg, #sessFn
+
+//@ func SessionMiddleware
+//@   props C19 C04
+//@   requires [handler-nonnil] fn != nil
+//@   ensures result != nil
+//@   modifies nothing
+
+//@ func SessionMiddleware$1$1
+//@   props C19 C04
+//@   inline
+//@   requires [captured] fn != nil
+//@   requires parent != nil
+//@   ensures result != nil && captured(result, "parent") == parent && captured(result, "fn") == fn
+//@   modifies nothing
+
+//@ func SessionMiddleware$1
+//@   props C19 C04
+//@   requires srv != nil
+//@   requires [captured] fn != nil
+//@   ensures [nil-base] old(srv.Session) == nil ==> srv.Session == fn
+//@   ensures [wraps-previous] old(srv.Session) != nil ==> (srv.Session != nil && fresh(srv.Session) && captured(srv.Session, "parent") == old(srv.Session) && captured(srv.Session, "fn") == fn)
+//@   ensures result == nil
+//@   modifies srv.Session
+
+// ---- command loop (C03 C04 C05 C06 C07 C08 C10 C19) -------------------------------------------
+
+//@ func NewErrUnimplementedMessageType
+//@   props C06 C02 C04
+//@   ensures result != nil && ErrTextOK(result) && !isExceeded(result) && result != io.EOF
+//@   modifies nothing
+
+//@ func NewErrUnkownStatement
+//@   props C06 C02 C04
+//@   requires nulfree(name)
+//@   ensures result != nil && ErrTextOK(result) && !isExceeded(result) && result != io.EOF
+//@   modifies nothing
+
+//@ func NewErrUndefinedStatement
+//@   props C06 C02 C04
+//@   ensures result != nil && ErrTextOK(result) && !isExceeded(result) && result != io.EOF
+//@   modifies nothing
+
+//@ func NewErrMultipleCommandsStatements
+//@   props C06 C02 C04
+//@   ensures result != nil && ErrTextOK(result) && !isExceeded(result) && result != io.EOF
+//@   modifies nothing
+
+//@ func newErrClientCopyFailed
+//@   props C13 C02 C04
+//@   requires nulfree(desc)
+//@   ensures result != nil && ErrTextOK(result) && !isExceeded(result) && result != io.EOF
+//@   modifies nothing
+
+//@ func singleStatement
+//@   props C06 C04
+//@   requires [stmts-ok] each(stmts, s, s != nil && s.fn != nil)
+//@   requires err != nil ==> (ErrTextOK(err) && !isExceeded(err))
+//@   ensures [passes-error] err != nil ==> (result.0 == nil && result.1 == err)
+//@   ensures [exactly-one] result.1 == nil ==> (err == nil && len(stmts) == 1 && result.0 == stmts[0] && result.0 != nil && result.0.fn != nil)
+//@   ensures [otherwise-error] (err == nil && len(stmts) != 1) ==> result.1 != nil
+//@   ensures [err-text] result.1 != nil ==> (ErrTextOK(result.1) && !isExceeded(result.1))
+//@   modifies nothing
+
+//@ func (*Session).handleConnTerminate
+//@   props C19 C04
+//@   requires srv != nil && srv.Server != nil
+//@   ensures [hook-once] srv.Server.TerminateConn != nil ==> #nTerminate == old(#nTerminate) + 1
+//@   ensures [no-hook] srv.Server.TerminateConn == nil ==> (#nTerminate == old(#nTerminate) && result == nil)
+//@   ensures [out-silent] OutSame()
+//@   modifies #nTerminate
+
+//@ func (*Session).writeParameterDescription
+//@   props C02 C06 C08 C20 C04
+//@   requires WriterReady(writer)
+//@   requires [count16] {C02} len(parameters) <= 65535
+//@   ensures [one-t] result == nil ==> (#nOut == old(#nOut) + 1 && #last == 't' && #nZ == old(#nZ) && #nE == old(#nE) && #failed == old(#failed))
+//@   ensures [failed] result != nil ==> (#nOut == old(#nOut) && #nZ == old(#nZ) && #nE == old(#nE) && #failed)
+//@   ensures [err-kind] result != nil ==> !isExceeded(result)
+//@   callsite (*buffer.Writer).AddInt16 [announces-len] {C08 C20} $i == wrap16(len(parameters))
+//@   callsite (*buffer.Writer).AddInt32 [announces-oid] {C08 C20} $i == wrap32(parameter)
+//@   modifies WriterState(writer), Out()
+//@   loop 0
+//@     invariant [frame] writer.err == nil && FrameOK(writer) && writer.#ft == 't' && writer.#gs == 40 && writer.#gn == len(parameters) && writer.#gk == $index + 1
+//@     invariant [range] -1 <= $index && $index + 1 <= len(parameters)
+//@     invariant [out] #nOut == old(#nOut) && #nZ == old(#nZ) && #nE == old(#nE) && #last == old(#last) && #cyc == old(#cyc) && #failed == old(#failed)
+//@     invariant [E-kept] #E_mask == old(#E_mask) && #E_S == old(#E_S) && #E_C == old(#E_C) && #E_M == old(#E_M) && #E_D == old(#E_D) && #E_H == old(#E_H) && #E_F == old(#E_F) && #E_L == old(#E_L) && #E_R == old(#E_R) && #E_n == old(#E_n)
+//@     decreases len(parameters) - $index
+
+//@ func (*Session).writeColumnDescription
+//@   props C02 C06 C08 C04
+//@   requires WriterReady(writer)
+//@   ensures [one-T-or-n] result == nil ==> (#nOut == old(#nOut) + 1 && (#last == 'T' || #last == 'n') && (#last == 'n' <==> len(columns) == 0) && #nZ == old(#nZ) && #nE == old(#nE) && #failed == old(#failed))
+//@   ensures [failed] result != nil ==> (#nOut == old(#nOut) && #nZ == old(#nZ) && #nE == old(#nE) && #failed)
+//@   ensures [err-kind] result != nil ==> !isExceeded(result)
+//@   callsite (wire.Columns).Define [passes-formats] {C08} $formats == formats && $columns == columns
+//@   modifies WriterState(writer), Out()
+
+//@ func (*Session).readColumnTypes
+//@   props C08 C03 C04
+//@   requires srv != nil && srv.Server != nil && reader != nil
+//@   ensures [count] result.1 == nil ==> len(result.0) == mbe16(arr(old(reader.Msg)), off(old(reader.Msg)))
+//@   ensures [codes] {C08} result.1 == nil ==> (forall j :: (0 <= j && j < len(result.0)) ==> result.0[j] == wrap16(mbe16(arr(old(reader.Msg)), off(old(reader.Msg)) + 2 + 2 * j)))
+//@   ensures [consumed] result.1 == nil ==> (arr(reader.Msg) == arr(old(reader.Msg)) && off(reader.Msg) == off(old(reader.Msg)) + 2 + 2 * len(result.0) && end(reader.Msg) == end(old(reader.Msg)))
+//@   ensures [err-kind] result.1 != nil ==> (result.1 != io.EOF && !isExceeded(result.1) && ErrTextOK(result.1))
+//@   ensures [alloc-bound] {C04} #maxalloc <= max(old(#maxalloc), 2 * 65535)
+//@   ensures [own-array] result.1 == nil ==> fresh(arr(result.0))
+//@   modifies reader.Msg, #maxalloc, #nalloc
+//@   loop 0
+//@     invariant [range] 0 <= i && i <= length && len(columns) == length && length == mbe16(arr(old(reader.Msg)), off(old(reader.Msg)))
+//@     invariant [own-array] arr(columns) > old(#alloc)
+//@     invariant [position] arr(reader.Msg) == arr(old(reader.Msg)) && off(reader.Msg) == off(old(reader.Msg)) + 2 + 2 * i && end(reader.Msg) == end(old(reader.Msg))
+//@     invariant [codes] forall j :: (0 <= j && j < i) ==> columns[j] == wrap16(mbe16(arr(old(reader.Msg)), off(old(reader.Msg)) + 2 + 2 * j))
+//@     invariant [alloc-bound] #maxalloc <= max(old(#maxalloc), 2 * 65535)
+//@     decreases length - i
+
+//@ func (*Session).readParameters
+//@   props C08 C03 C18 C04
+//@   requires srv != nil && srv.Server != nil && reader != nil && ctx != nil && reader.Msg != nil
+//@   ensures [count] {C08} result.1 == nil ==> len(result.0) == bindNP(arr(old(reader.Msg)), off(old(reader.Msg)))
+//@   ensures [values] {C08 C18} result.1 == nil ==> (forall j :: (0 <= j && j < len(result.0)) ==> (mbe32(arr(old(reader.Msg)), bindOffP(arr(old(reader.Msg)), off(old(reader.Msg)), j)) == 4294967295 ? result.0[j].value == nil : (arr(result.0[j].value) == arr(old(reader.Msg)) && off(result.0[j].value) == bindOffP(arr(old(reader.Msg)), off(old(reader.Msg)), j) + 4 && len(result.0[j].value) == mbe32(arr(old(reader.Msg)), bindOffP(arr(old(reader.Msg)), off(old(reader.Msg)), j)))))
+//@   ensures [formats] {C08} result.1 == nil ==> (forall j :: (0 <= j && j < len(result.0)) ==> result.0[j].format == bindPFmt(arr(old(reader.Msg)), off(old(reader.Msg)), j))
+//@   ensures [decoder] {C08} result.1 == nil ==> (forall j :: (0 <= j && j < len(result.0)) ==> result.0[j].types == TypeMapOf(ctx))
+//@   ensures [consumed] result.1 == nil ==> (arr(reader.Msg) == arr(old(reader.Msg)) && off(reader.Msg) == bindOffP(arr(old(reader.Msg)), off(old(reader.Msg)), len(result.0)) && end(reader.Msg) == end(old(reader.Msg)))
+//@   ensures [err-kind] result.1 != nil ==> (result.1 != io.EOF && !isExceeded(result.1) && ErrTextOK(result.1))
+//@   ensures [alloc-bound] {C04} #maxalloc <= max(old(#maxalloc), 48 * 65535)
+//@   ensures [own-array] result.1 == nil ==> fresh(arr(result.0))
+//@   modifies reader.Msg, #maxalloc, #nalloc
+//@   loop 0
+//@     invariant [range] 0 <= i && i <= length && len(formats) == length && length == bindNF(arr(old(reader.Msg)), off(old(reader.Msg)))
+//@     invariant [own-array] arr(formats) > old(#alloc)
+//@     invariant [position] arr(reader.Msg) == arr(old(reader.Msg)) && off(reader.Msg) == off(old(reader.Msg)) + 2 + 2 * i && end(reader.Msg) == end(old(reader.Msg)) && reader.Msg != nil
+//@     invariant [codes] forall j :: (0 <= j && j < i) ==> formats[j] == bindF(arr(old(reader.Msg)), off(old(reader.Msg)), j)
+//@     invariant [default] defaultFormat == ((length == 1 && i >= 1) ? bindF(arr(old(reader.Msg)), off(old(reader.Msg)), 0) : 0)
+//@     invariant [alloc-bound] #maxalloc <= max(old(#maxalloc), 2 * 65535)
+//@     decreases length - i
+//@   loop 1
+//@     invariant [range] 0 <= i && i <= length && len(parameters) == length && length == bindNP(arr(old(reader.Msg)), off(old(reader.Msg)))
+//@     invariant [own-array] arr(parameters) > old(#alloc) && arr(formats) > old(#alloc) && arr(formats) != arr(parameters)
+//@     invariant [formats] len(formats) == bindNF(arr(old(reader.Msg)), off(old(reader.Msg))) && (forall j :: (0 <= j && j < len(formats)) ==> formats[j] == bindF(arr(old(reader.Msg)), off(old(reader.Msg)), j))
+//@     invariant [default] defaultFormat == (len(formats) == 1 ? bindF(arr(old(reader.Msg)), off(old(reader.Msg)), 0) : 0)
+//@     invariant [position] arr(reader.Msg) == arr(old(reader.Msg)) && off(reader.Msg) == bindOffP(arr(old(reader.Msg)), off(old(reader.Msg)), i) && end(reader.Msg) == end(old(reader.Msg)) && reader.Msg != nil
+//@     invariant [values] forall j :: (0 <= j && j < i) ==> (mbe32(arr(old(reader.Msg)), bindOffP(arr(old(reader.Msg)), off(old(reader.Msg)), j)) == 4294967295 ? parameters[j].value == nil : (arr(parameters[j].value) == arr(old(reader.Msg)) && off(parameters[j].value) == bindOffP(arr(old(reader.Msg)), off(old(reader.Msg)), j) + 4 && len(parameters[j].value) == mbe32(arr(old(reader.Msg)), bindOffP(arr(old(reader.Msg)), off(old(reader.Msg)), j))))
+//@     invariant [param-formats] forall j :: (0 <= j && j < i) ==> parameters[j].format == bindPFmt(arr(old(reader.Msg)), off(old(reader.Msg)), j)
+//@     invariant [decoder] forall j :: (0 <= j && j < i) ==> parameters[j].types == TypeMapOf(ctx)
+//@     invariant [alloc-bound] #maxalloc <= max(old(#maxalloc), 48 * 65535)
+//@     decreases length - i
